@@ -465,7 +465,10 @@ def organize(
             pass
         pass
     log.debug('organize() - setting queue')
-    dawgie.pl.schedule.que = sorted(jobs.values(), key=lambda i: i.get('level'))
+    dawgie.pl.schedule.que = sorted(
+        (j for j in jobs.values() if not _is_idle(j)),
+        key=lambda i: i.get('level'),
+    )
     return
 
 
@@ -509,6 +512,10 @@ def purge(node: dawgie.pl.dag.Node, target: str):
 
     for child in node:
         purge(child, target)
+
+    if node in que and _is_idle(node):
+        que.remove(node)
+        node.set('status', State.waiting)
     return
 
 
